@@ -53,6 +53,8 @@ def c01(ck):
     ck.exhaustive = True
     ck.extra["bounds"] = consts
     random_programs(ck, 2000 if ck.quick else 40000, 8, seed_offset=101)
+    if not ck.quick:
+        oracle_stepfiles(ck)
 
 
 @check("C13")
@@ -62,6 +64,7 @@ def c13(ck):
                "(f 'a1 'a2 ..) through lisp.EVAL in a fresh environment; distinct = distinct calls on which the "
                "oracle does not abstain")
     consts = {"MaxAr": 2, "Pool3": 8 if ck.quick else 16}
+    oracle_stepfiles(ck)
     gen_and_replay(ck, "GenC13", consts, timeout=1500)
     ck.exhaustive = True
     ck.extra["bounds"] = consts
@@ -715,3 +718,33 @@ def random_programs(ck, n, depth, seed_offset=0):
         txt = open(t2.stdout_path, errors="replace").read()
         if '"REJECT ' not in txt:
             raise InfraError("TraceDef accepted a corrupted record: the trace specification does not bind")
+
+
+def oracle_stepfiles(ck):
+    """The definition layer checked against the project's own documentation (tests/step*.mal).
+    A disagreement is a defect of the SPECIFICATION: INFRA-ERROR, never a verdict about the code."""
+    import os, json, sys
+    sys.path.insert(0, os.path.join(os.path.dirname(os.path.abspath(__file__))))
+    import stepfiles
+    from vrun import REPO
+    ps = stepfiles.pairs(REPO)
+    path = os.path.join(ck.scratch, "steps.ndjson")
+    write_ndjson(path, ps)
+    t = ck.tlc("StepFiles", "SPECIFICATION Spec\nCHECK_DEADLOCK FALSE\n", workers=1, env={"VERIF_TRACE": path},
+               want_cases=False, timeout=1200)
+    if t.exit != 0:
+        raise InfraError("StepFiles failed: exit %s\n%s" % (t.exit, tail(t.stdout_path)))
+    ok = skip = 0
+    dis = []
+    for line in open(t.stdout_path, errors="replace"):
+        if line.startswith('"OK '):
+            ok += 1
+        elif line.startswith('"SKIP '):
+            skip += 1
+        elif line.startswith('"DISAGREE '):
+            s = json.loads(line)
+            i = int(s.split()[1])
+            dis.append("%s: %s => %s" % (ps[i - 1]["file"], ps[i - 1]["input"], s))
+    ck.extra["oracle_vs_step_files"] = {"pairs": len(ps), "agree": ok, "outside_fragment": skip, "disagree": len(dis)}
+    if dis:
+        raise InfraError("the definition layer disagrees with the step files (fix the specification):\n" + "\n".join(dis[:20]))
